@@ -77,6 +77,9 @@ def classify_numeric_string(s, lo=0, hi=U256_MAX):
         return ("reject", "empty")
     if re.match(r"[+-]?0[xX][+\-]", s):
         return ("reject", "not-a-number")  # a sign after the prefix: 0x+a, 0x-1
+    if re.match(r"0x[0-9a-fA-F]*[+\-. ][0-9a-fA-F+\-. ]*\Z", s) or re.match(r"[0-9]+[ _]*[a-zA-Z]{2,}[0-9]*\Z", s) or \
+            re.match(r"(0x[0-9a-fA-F]+|[0-9]+\.[0-9]+)[ _]*[g-zG-Z][a-zA-Z0-9]*\Z", s):
+        return ("reject", "not-a-number")  # a sign / blank / dot inside hex digits; a number followed by a word (1 ether, 30gwei)
     if lo == 0 and re.match(r"-(0x[0-9a-fA-F]*[1-9a-fA-F][0-9a-fA-F]*|[0-9]*[1-9][0-9]*)\Z", s):
         return ("reject", "negative")
     if re.match(r"-?[0-9]+\.[0-9]*[1-9][0-9]*\Z", s):
@@ -123,6 +126,8 @@ def selftest():
     assert s("1.5") == ("reject", "fraction-string") and s("12z") == ("reject", "not-a-number")
     assert s("hello") == ("reject", "not-a-number")
     assert s("0x+a") == ("reject", "not-a-number") and s("0x-1") == ("reject", "not-a-number") and s("0x+") == ("reject", "not-a-number")
+    assert s("1 ether")[0] == "reject" and s("30gwei")[0] == "reject" and s("0x10gwei")[0] == "reject" and s("1.5 ether")[0] == "reject"
+    assert s("0x" + "0" * 31 + "+" + "1" * 32)[0] == "reject" and s("0x12 34")[0] == "reject" and s("1e3")[0] == "either" and s("1e18")[0] == "either"
     assert s("+5") == ("either", 5) and s("007") == ("either", 7) and s("0b101") == ("either", 5)
     assert s("0o17") == ("either", 15) and s("1e3")[0] == "either" and s(" 5")[0] == "either"
     assert s("-5", lo=-128, hi=127) == ("accept", -5) and s("-0x80", lo=-128, hi=127) == ("accept", -128)
